@@ -44,7 +44,11 @@ def judge_records(ctx, dec, rinsts, origin, note="", skip_branches=False):
             want = ri.expected_fields()
             ctx.case(objd.line_shape(ri), True)
             ctx.event("instructions_judged")
-            if d[2] != want[2]:
+            same = d[2] == want[2]
+            if not same and len(d[2]) == len(want[2]) and ri.parsed.mnemonic.startswith(BRANCHES):
+                # a target objdump printed with 0x (raw images, PE listings): "the bare hexadecimal address" is met with or without the prefix
+                same = all(g == w or (w.startswith("0x") and a == w and g != "" and g == (w[2:].lstrip("0") or "0")) for g, w, a in zip(d[2], want[2], ri.ops_att or [""]))
+            if not same:
                 ctx.disagreement({"origin": origin, "listing": ri.raw + "\n"},
                                  f"{note}operands {list(d[2])} differ from the normal form {list(want[2])} for line {ri.raw!r}")
                 continue
@@ -63,7 +67,8 @@ def judge_records(ctx, dec, rinsts, origin, note="", skip_branches=False):
                 if want_k is None or not ri.ops_att:
                     continue
                 ctx.event("operands_judged_next_to_unspecified_ones")
-                ok = got == want_k or (want_k.startswith("0x") and ri.ops_att[k] == want_k and got == want_k[2:].lstrip("0") and got != "")
+                ok = got == want_k or (want_k.startswith("0x") and ri.ops_att[k] == want_k and got != "" and got == (want_k[2:].lstrip("0") or "0")
+                                       and ri.parsed.mnemonic.startswith(BRANCHES))
                 if not ok:
                     ctx.disagreement({"origin": origin, "listing": ri.raw + "\n"},
                                      f"{note}operand {k} is {got!r}, its normal form is {want_k!r} (line {ri.raw!r}; the other operands are outside the listed forms)")
